@@ -34,7 +34,7 @@ import scopes, c06
 LEVEL = 'other'
 EXPLANATION = __doc__
 ASSUMPTIONS = ['the help item is an ordinary Long/Short item (tokenizer, C02/C09)']
-FLOORS = {'R.returns': 6, 'H.help-first': 3, 'P.payload': 3, 'I.info': 4, 'A.ambiguity': 2, 'T.combine': 289, 'B.best-effort': 1, 'F.final': 10, 'S.sequential': 3, 'C.command-outcome': 2, 'D.deeper-outcome': 8}
+FLOORS = {'R.returns': 6, 'H.help-first': 3, 'P.payload': 3, 'I.info': 4, 'A.ambiguity': 2, 'T.combine': 289, 'B.best-effort': 2, 'F.final': 10, 'S.sequential': 3, 'C.command-outcome': 2, 'D.deeper-outcome': 8}
 
 def run(ctx):
     cfgs = ['none', 'all'] if ctx.tier == 'quick' else ['none', 'all', 'ac', 'doc', 'dull']
@@ -315,6 +315,30 @@ def best_effort(ctx, cfg, fs):
     swaps = [c for c in b.calls() if c.is_(r'^std::mem::swap::<args::inner::State>$') and 'args' in [scopes.state_id(b, a, c.bb) for a in c.args]]
     ok = bool(errs) and all(any(b.dominates(s.bb, e) and not any(o in reachable_edges(b, s.bb) for o in ok_return_blocks(b)) for s in swaps) for e in errs)
     ctx.ob('B.best-effort', 'ParseAdjacent::eval:failure-hands-back-state', ok, 'the failure exit of an adjacent group swaps its best-effort state into the caller\'s state (items it did not consume, such as the help flag, stay visible): %s' % ok, where=b.where(), cfg=cfg)
+
+    # ties keep the EARLIER attempt: its state has the widest remaining scope (start..end of the enclosing scope), so a
+    # help flag typed between two equally incomplete occurrences of the group stays visible to the help lookup
+    upd = [c for c in b.calls() if c.is_(r'^std::mem::swap::<args::inner::State>$') and 'args' not in [scopes.state_id(b, a, c.bb) for a in c.args]]
+    strict = False; detail = 'no best-state update found'
+    for c in upd:
+        for (a, s_) in b.control_deps().get(c.bb, ()):
+            sw = Switch(b, a)
+            if sw.kind != 'bool':
+                continue
+            for r in sw.roots:
+                if r.kind == 'bin' and r.extra['op'] in ('Gt', 'Lt', 'Ge', 'Le'):
+                    ka = provenance(b, r.extra['a'], r.site[0], r.site[1], through=None); kb = provenance(b, r.extra['b'], r.site[0], r.site[1], through=None)
+                    a_new = bool(ka) and all(q.kind == 'bin' and q.extra['op'].startswith('Sub') for q in ka)
+                    b_new = bool(kb) and all(q.kind == 'bin' and q.extra['op'].startswith('Sub') for q in kb)
+                    # which outcome means "strictly more than the best so far"
+                    want = None
+                    if a_new and not b_new: want = {'Gt': True, 'Le': False}.get(r.extra['op'])
+                    if b_new and not a_new: want = {'Lt': True, 'Ge': False}.get(r.extra['op'])
+                    detail = '%s(%s, %s)' % (r.extra['op'], 'consumed' if a_new else 'best', 'consumed' if b_new else 'best')
+                    if want is not None and s_ == sw.target(want):
+                        strict = True
+    ctx.ob('B.best-effort', 'ParseAdjacent::eval:ties-keep-earlier-attempt', strict and len(upd) == 1,
+           'the best-effort state is replaced only by an attempt that consumed STRICTLY more (%s): %s' % (detail, strict), where=b.where(), cfg=cfg)
 
 def final(ctx, cfg, fs):
     cc = fs.one(r'^error::Message::can_catch$')
